@@ -16,7 +16,7 @@ RULE = (
     "the code performs) and, for midpoint partitions on boxes with small dyadic end points, translations by dyadic t (all midpoints "
     "stay representable): the image of every produced point is first verified to be exactly invertible ((y - t)/a == x) and then "
     "x'_i == a x_i + t is required bit for bit, for every round and for the recommendation. Tolerance class: arbitrary a > 0 and t, "
-    "compared to 1e-9 of the image box scale, only for algorithms whose decisions are coordinate-free (all but Zooming and DOO with "
+    "compared to 1e-9 of the image box width plus 1e-12 of its coordinate magnitude (rounding scales with the latter), only for algorithms whose decisions are coordinate-free (all but Zooming and DOO with "
     "its default delta). DOO with its default diameter function is checked under translations only (the documented exception), with a "
     "user delta(h) under all maps. non-trivial = >= 20 rounds, >= 2 expansions, map not the identity; distinct = SHA-1 of the case."
 )
@@ -68,6 +68,7 @@ def check_case(case):
         return Outcome(aborted="degenerate-image", classes=classes)
     r2 = run(img, rewards=r1["rewards"] + [0.0] * (case["T"] - len(r1["rewards"])))
     widths = [hi - lo for lo, hi in img["domain"]]
+    mags = [max(abs(lo), abs(hi)) for lo, hi in img["domain"]]  # rounding scales with the coordinates' magnitude
     n = min(len(r1["points"]), len(r2["points"]))
     seqs = list(zip(r1["points"][:n], r2["points"][:n], range(1, n + 1)))
     if r1["last"] is not None and r2["last"] is not None:
@@ -79,11 +80,13 @@ def check_case(case):
         for k, (xi, yi) in enumerate(zip(x, y)):
             want = a * float(xi) + t
             invertible = (want - t) / a == float(xi)
+            if 0 < abs(float(xi)) < 1e-250 or 0 < abs(want) < 1e-250:
+                invertible = False  # gradual underflow: power-of-two scaling is no longer exact there
             if exact and invertible:
                 n_exact += 1
                 ok = float(yi) == want
             else:
-                ok = abs(float(yi) - want) <= 1e-9 * max(widths[k], abs(want) * 1e-6)
+                ok = abs(float(yi) - want) <= 1e-9 * widths[k] + 1e-12 * mags[k]
             if not ok:
                 return Outcome(violation={"clause": "equivariance", "msg": "%s coordinate %d: base %r maps to %r, image run gave %r (a=%r, t=%r)" % (
                     "recommendation" if rnd == case["T"] + 1 else "round %d" % rnd, k, xi, want, yi, a, t), "round": rnd}, classes=classes)
@@ -160,4 +163,4 @@ def simplify(case):
 
 
 def run_shard(ctx):
-    ctx.drive("affine", cases(ctx.tier), check_case, ctx.budget(2000, 30000))
+    ctx.drive("affine", cases(ctx.tier), check_case, ctx.budget(8000, 60000))
